@@ -310,6 +310,14 @@ func (g *schemaGenerator) generateDeclaredType(t *schemas.Type, scope nameScope)
 	switch tt := theType.(type) {
 	case *codegen.StructType:
 		if t.GetSubSchemaType() == schemas.SubSchemaTypeAnyOf {
+			for _, f := range tt.Fields {
+				if f.DefaultValue != nil && isAdditionalPropertiesField(f) {
+					g.output.file.Package.AddImport("reflect", "")
+					g.output.file.Package.AddImport("strings", "")
+					g.output.file.Package.AddImport("github.com/go-viper/mapstructure/v2", "")
+				}
+			}
+
 			validators = append(validators, &anyOfValidator{decl.Name, t.GetSubSchemasCount()})
 
 			g.generateUnmarshaler(decl, validators)
